@@ -75,8 +75,15 @@ def handle (j : Json) : Json :=
     | some inp =>
       match op with
       | "sort" =>
-        match getArr? j "angles" >>= nats? with
-        | some bits => respond encInt 0 j (opSort (fun (a b : Float) => decide (a ≤ b)) (bits.map floatOfBits)) inp
+        -- the angles as decimal TEXT (the lines of the .tlt file / the TiltAngle values / the numbers of the list), parsed exactly
+        match getArr? j "angle_lines" >>= strs? with
+        | some lines =>
+          let arg := match getStr? j "ang_kind" with
+            | some "other" => AngArg.other
+            | some "tlt" => AngArg.tltFile lines      -- every line of the text file
+            | some "mdoc" => AngArg.mdocFile lines    -- every line of the mdoc file
+            | _ => AngArg.seq lines
+          respond encInt 0 j (opSortArg arg) inp
         | none => err "bad-args"
       | "remove" =>
         match getArr? j "idxs" >>= ints? with
@@ -84,6 +91,7 @@ def handle (j : Json) : Json :=
           let src := match getStr? j "src" with
             | some "txt" => IdxSrc.txt
             | some "csv" => IdxSrc.csv
+            | some "other" => IdxSrc.other
             | _ => IdxSrc.list
           respond encInt 0 j (opRemoveSrc src (base1Of (optFlag j "base1")) idxs) inp
         | none => err "bad-args"
